@@ -59,10 +59,11 @@ class P(Prop):
                     mcomps += [{"name": f"me{k}", "cls": "main_engine", "line": k + 1, "rated": Fraction(8000)},
                                {"name": f"prop{k}", "cls": "propeller", "line": k + 1, "rated": Fraction(8000), "eff": [1]}]
             m = rng.randint(2, 7)
-            steps = [Fraction(rng.randint(1, 40) * 15) for _ in range(m - 1)]
+            frac = rng.random() < 0.4            # time stamps that are not whole seconds
+            steps = [Fraction(rng.randint(1, 40) * 15) + (Fraction(rng.randint(0, 7), 8) if frac else 0) for _ in range(m - 1)]
             if m >= 3 and rng.random() < 0.5:
                 steps[1] = steps[0]          # two equally long intervals
-            ts = [Fraction(rng.randint(0, 1000))]
+            ts = [Fraction(rng.randint(0, 1000)) + (Fraction(rng.randint(0, 7), 8) if frac else 0)]
             for d in steps:
                 ts.append(ts[-1] + d)
             ps = [Fraction(rng.randint(0, 64), 64) * 4000 for _ in range(m)]
